@@ -58,12 +58,12 @@ pub proof fn lemma_step_exact(rel: Rel, st: St, e: Ev)
      match e {
         Ev::Equal(o, n, l) => l > 0 && o == st.oc && n == st.nc && st.oc + l <= st.oe && st.nc + l <= st.ne
             && (forall|i: int| 0 <= i < l ==> #[trigger] relk(rel, o as int, n as int, i)),
-        Ev::Delete(o, l, n) => l > 0 && o == st.oc && (st.strict ==> n == st.nc) && st.oc + l <= st.oe,
-        Ev::Insert(o, n, l) => l > 0 && (st.strict ==> o == st.oc) && n == st.nc && st.nc + l <= st.ne,
-        Ev::Replace(o, ol, n, nl) => ol > 0 && nl > 0 && o == st.oc && n == st.nc && st.oc + ol <= st.oe && st.nc + nl <= st.ne,
+        Ev::Delete(o, l, n) => l > 0 && o == st.oc && (st.lvl >= 1 ==> n == st.nc) && st.oc + l <= st.oe,
+        Ev::Insert(o, n, l) => l > 0 && (st.lvl >= 1 ==> o == st.oc) && n == st.nc && st.nc + l <= st.ne,
+        Ev::Replace(o, ol, n, nl) => st.lvl <= 1 && ol > 0 && nl > 0 && o == st.oc && n == st.nc && st.oc + ol <= st.oe && st.nc + nl <= st.ne,
         Ev::Finish => false,
      }
-  ensures ({ let s2 = step_rel(rel, st, e); wf(s2) && s2.oe == st.oe && s2.ne == st.ne && s2.strict == st.strict
+  ensures ({ let s2 = step_rel(rel, st, e); wf(s2) && s2.oe == st.oe && s2.ne == st.ne && s2.lvl == st.lvl
       && s2.oc == st.oc + (match e { Ev::Equal(o, n, l) => l as int, Ev::Delete(o, l, n) => l as int, Ev::Replace(o, ol, n, nl) => ol as int, _ => 0 })
       && s2.nc == st.nc + (match e { Ev::Equal(o, n, l) => l as int, Ev::Insert(o, n, l) => l as int, Ev::Replace(o, ol, n, nl) => nl as int, _ => 0 }) })
 {
